@@ -1,25 +1,22 @@
 (* Proofs/Schema_table.v — obligations the kernel evaluates on the REGENERATED tables *)
-From PV Require Import Lib.Base Model.Schema Gen.SchemaTables Proofs.Schema_lemmas.
+From PV Require Import Lib.Base Model.Schema Model.SchemaBeforeFix Gen.SchemaTables Proofs.Schema_lemmas.
 Open Scope N_scope.
 
-(* every regenerated row is well-formed, except the rows recorded as findings *)
-Lemma actual_rows_checked :
-  forallb (fun r => wf_row actual_schema r || memN (k_id r) known_bad_rows) actual_schema = true.
+(* every regenerated row is well-formed: no exception list *)
+Lemma actual_schema_wf : wf_schema actual_schema = true.
 Proof. vm_compute. reflexivity. Qed.
 
-Lemma actual_schema_wf r :
-  In r actual_schema -> ~ In (k_id r) known_bad_rows -> wf_row actual_schema r = true.
+Lemma actual_row_wf r : In r actual_schema -> wf_row actual_schema r = true.
 Proof.
-  intros Hin Hnk. pose proof actual_rows_checked as H. rewrite forallb_forall in H.
-  specialize (H r Hin). apply orb_true_iff in H as [H|H]; [exact H|].
-  apply memN_In in H. contradiction.
+  intros Hin. pose proof actual_schema_wf as H. unfold wf_schema in H.
+  rewrite forallb_forall in H. exact (H r Hin).
 Qed.
 
-Lemma bad_rows_known : forall c, In c (bad_rows actual_schema) -> In c known_bad_rows.
-Proof.
-  assert (H : forallb (fun c => memN c known_bad_rows) (bad_rows actual_schema) = true) by (vm_compute; reflexivity).
-  rewrite forallb_forall in H. intros c Hc. apply memN_In, H, Hc.
-Qed.
+Lemma no_bad_rows : bad_rows actual_schema = [].
+Proof. vm_compute. reflexivity. Qed.
+
+Lemma no_bad_members : bad_members actual_schema = [].
+Proof. vm_compute. reflexivity. Qed.
 
 (* the per-member diagnosis used for reports is exact *)
 Lemma row_defects_exact :
@@ -37,7 +34,24 @@ Proof. vm_compute. reflexivity. Qed.
 Lemma xsi_names_distinct : x_xsi_nil <> x_xsi_type.
 Proof. vm_compute. discriminate. Qed.
 
-Lemma example_wf : wf_inst x_xsi_nil x_xsi_type x_xmlns_xs actual_schema example_inst = true.
+(* every class has instances the round-trip theorem speaks about: the object cls() satisfies
+   obj_ok, serialises, parses back to itself and re-serialises to the same tree *)
+Definition fresh_roundtrips (r : class_row) : bool :=
+  let i := fresh_inst x_xsi_nil r in
+  obj_ok x_xsi_nil x_xsi_type x_xmlns_xs actual_schema i
+  && match serialise actual_schema i with
+     | Ok x => match parse x_xsi_nil x_xsi_type x_xmlns_xs actual_schema (k_id r) x with
+               | Ok j => match serialise actual_schema j with
+                         | Ok y => val_eqb (show_xtree x) (show_xtree y)
+                                   && val_eqb (show_inst actual_schema j) (show_inst actual_schema i)
+                         | Err _ => false end
+               | Err _ => false end
+     | Err _ => false
+     end.
+Lemma every_class_fresh_roundtrips : forallb fresh_roundtrips actual_schema = true.
+Proof. vm_compute. reflexivity. Qed.
+
+Lemma example_ok : obj_ok x_xsi_nil x_xsi_type x_xmlns_xs actual_schema example_inst = true.
 Proof. vm_compute. reflexivity. Qed.
 
 Lemma example_roundtrip :
